@@ -106,6 +106,8 @@ class G:
         if k < 0.8:
             return self.value()
         if k < 0.84:
+            if getattr(self, "no_period", False):
+                return self.field()      # (a bare * as an operand: a / * would open a comment)
             return T.Star(self.table() if r.random() < 0.5 else None)
         if k < 0.87:
             return P.NULL if r.random() < 0.5 else T.LiteralValue(r.choice(["CURRENT_DATE", "DEFAULT", "X"]))
@@ -271,8 +273,12 @@ class G:
         if k < 0.93:
             return lhs.bitwiseand(r.choice([1, 4, 255]))
         if k < 0.95:
+            if getattr(self, "no_period", False):
+                return lhs.between(rhs(), rhs())
             return lhs.from_to(rhs(), rhs())
         if k < 0.97:
+            if getattr(self, "no_period", False):
+                return lhs.isnull()      # (the JSON operators are PostgreSQL's; #> opens a comment in MySQL)
             j = self.field()
             return r.choice([lambda: j.get_json_value("k"), lambda: j.get_text_value(1), lambda: j.get_path_json_value("{a,b}"),
                              lambda: j.has_key("k"), lambda: j.contains({"a": 1}), lambda: j.has_keys(["a", "b"]),
